@@ -49,6 +49,19 @@ class CheckFailed(Exception):
     pass
 
 
+def at(seq, k):
+    """Spec-side element access (no bounds fork; bounds are stated as explicit clauses)."""
+    if hasattr(seq, "iloc"):
+        return seq.iloc[k]
+    return seq[k]
+
+
+def spec(fn):
+    """Mark a sidecar function as specification text: total real division (no ZeroDivisionError fork)."""
+    fn.__pyvc_spec__ = True
+    return fn
+
+
 def exact(x):
     """Spec-side arithmetic is exact: natively a Fraction (so that evaluating a *specification* never
     rounds at the repo's 35-digit Decimal context); symbolically a real (model in interp)."""
@@ -157,6 +170,23 @@ class SymScenario(ScenarioBase):
 
     def bool(self, name):
         return self._mk(name, BOOL, None, None, False, False)
+
+    def seq(self, name, kind=DEC, min_len=0, max_len=None, elem_pre=None, as_series=False):
+        """Sequence of symbolic (unbounded) length; natively a list (or pandas Series) of concrete values."""
+        if name in self.inputs:
+            return self.inputs[name]
+        from .seq import SymSeq
+        n = self.int(f"{name}!len", min_len, max_len)
+        del self.inputs[f"{name}!len"]
+        sq = SymSeq(self.path, name, kind, n, elem_pre)
+        self.inputs[name] = sq
+        self.kinds[name] = ("seq", kind, as_series)
+        return sq
+
+    def seq_scaled(self, name, base, c):
+        """Elementwise c * base as a sequence of the same length (for relational spec lemmas)."""
+        from .seq import ScaledSeq
+        return ScaledSeq(name, base, c)
 
     def assume(self, cond, why=""):
         if isinstance(cond, SV):
@@ -281,6 +311,48 @@ class ConcreteScenario(ScenarioBase):
 
     def bool(self, name):
         return self._get(name, BOOL, None, None)
+
+    def seq(self, name, kind=DEC, min_len=0, max_len=None, elem_pre=None, as_series=False):
+        if name in self.inputs:
+            return self.inputs[name]
+        if name in self.values:
+            vals = [_coerce(x, kind) for x in self.values[name]]
+        elif self.rng is not None:
+            hi = max_len if max_len is not None else min_len + 10
+            n = self.rng.randint(min_len, hi)
+            base = _sample(self.rng, kind, 1, 10 ** 6, False, False)
+            vals = []
+            for _ in range(n):
+                r = self.rng.random()
+                if r < 0.15 and vals:
+                    vals.append(vals[-1])
+                else:
+                    f = Fraction(self.rng.randint(2, 300), 100)
+                    vals.append(_coerce(Fraction(base) * f, kind) if kind != INT else int(Fraction(base) * f) + 1)
+        else:
+            vals = [_coerce(1, kind)] * min_len
+        if len(vals) < min_len or (max_len is not None and len(vals) > max_len):
+            self.rejected = True
+        if as_series:
+            import pandas as pd
+            v = pd.Series(vals, dtype=object if kind == DEC else None)
+        else:
+            v = list(vals)
+        if elem_pre is not None:
+            for i in range(len(vals)):
+                c = elem_pre(v, i)
+                ok = all(c.values()) if isinstance(c, dict) else bool(c)
+                if not ok:
+                    self.rejected = True
+        self.inputs[name] = v
+        self.kinds[name] = ("seq", kind, as_series)
+        return v
+
+    def seq_scaled(self, name, base, c):
+        import pandas as pd
+        if isinstance(base, pd.Series):
+            return pd.Series([c * x for x in base])
+        return [c * x for x in base]
 
     def assume(self, cond, why=""):
         if not cond:
